@@ -194,6 +194,9 @@ impl PeekOut {
 }
 
 pub struct Ctx<'a> {
+    /// histories up to this length are all expanded without deduplication (immune to a snapshot
+    /// that misses a newly added field); beyond it the search closes with deduplication
+    pub stateless_depth: usize,
     /// include the simulation scratch buffers in the deduplication key (finer, slower)
     pub key_with_scratch: bool,
     pub cfg: &'a Cfg,
@@ -494,7 +497,7 @@ pub fn explore(ctx: &Ctx) -> Explored {
                         after.scratch.clear();
                     }
                     let key = (after, st);
-                    if !seen.contains_key(&key) {
+                    if !seen.contains_key(&key) || hist.len() < ctx.stateless_depth {
                         if seen.len() >= STATE_CAP {
                             out.capped = true;
                             continue;
